@@ -77,12 +77,15 @@ def _check_matches(doc: Any, ms: List[Any]) -> bool:
             elif not why(type(got) is type(m.obj) and got == m.obj, "pointer resolves to another value", text, mode, got):
                 return False
         # parent is the match one step shorter
-        if m.parts:
-            par = m.parent
-            if not why(par is not None and par.parts == m.parts[:-1] and m.path.startswith(par.path) and par.obj is _walk(doc, m.parts[:-1]),
-                       "parent", m.path, None if par is None else par.path):
+        # walk the whole parent chain: every link is the match one step shorter, down to the root
+        cur = m
+        while cur.parts:
+            par = cur.parent
+            if not why(par is not None and par.parts == cur.parts[:-1] and cur.path.startswith(par.path) and par.obj is _walk(doc, cur.parts[:-1]),
+                       "parent chain", m.path, cur.path, None if par is None else par.path):
                 return False
-        elif not why(m.parent is None and m.path == "$", "root match"):
+            cur = par
+        if not why(cur.parent is None and cur.path == "$" and cur.obj is doc, "chain does not end at the root match", m.path):
             return False
     # equal paths iff same node
     for i in range(len(ms)):
